@@ -71,3 +71,17 @@ package term
 //@   ensures [truncated] n >= 1 && b0 >= 192 && b0 <= 247 && n < (b0 < 224 ? 2 : (b0 < 240 ? 3 : 4)) ==> err != nil && r == 65533
 //@   ensures [no-unbounded-wait-inside-a-sequence] !blocking
 //@   ensures [never-reads-more-than-needed] consumed <= n && consumed <= 4
+
+// C31, safety of the escape-sequence state machine: whatever bytes arrive (and
+// wherever they stop), decoding an event indexes the parameter list only where
+// its length has been checked - no input can crash the reader.
+//@ func parseCSI
+//@   props C31
+//@ func xtermModify
+//@   props C31
+//@ func mouseModify
+//@   props C31
+//@ func ctrlModify
+//@   props C31
+//@ func readEvent
+//@   props C31
